@@ -239,6 +239,10 @@ class Service(IOSoftware):
 
     def resume(self) -> bool:
         """Resume paused service."""
+        # like start(): a service cannot be brought back to RUNNING while its node is not on
+        if not super()._can_perform_action():
+            return False
+
         if self.operating_state == ServiceOperatingState.PAUSED:
             self.sys_log.info(f"Resuming service {self.name}")
             self.operating_state = ServiceOperatingState.RUNNING
